@@ -100,7 +100,8 @@ func traceOf(b BatchSpec, e EntrySpec) string {
 	if b.Prefix != "" {
 		return fmt.Sprintf("%s%07d", b.Prefix, e.Seq)
 	}
-	return fmt.Sprintf("%s%07d", b.ODFI, e.Seq)
+	// an ODFI given without its leading zero is written zero-filled to eight columns (SetTraceNumber, ODFIIdentificationField)
+	return fmt.Sprintf("%s%s%07d", strings.Repeat("0", max(0, 8-len(b.ODFI))), b.ODFI, e.Seq)
 }
 
 // ---------------------------------------------------------------- building real files
@@ -340,7 +341,7 @@ type genOpts struct {
 }
 
 func baseHeaderSpec(r *rng.R) BatchSpec {
-	odfis := []string{"12104288", "07640125"}
+	odfis := []string{"12104288", "07640125", "7640125"}
 	return BatchSpec{
 		SCC:  rng.Pick(r, []int{200, 200, 220, 225}),
 		Name: rng.Pick(r, []string{"Acme Corp", "Beta LLC"}),
@@ -385,7 +386,7 @@ func variant(r *rng.R, h BatchSpec) BatchSpec {
 	case 5:
 		v.EED = "190901"
 	case 6:
-		v.ODFI = "09140060"
+		v.ODFI = rng.Pick(r, []string{"09140060", "9140060"})
 	case 7, 8:
 		if r.Bool() {
 			v.Name = strings.ToUpper(h.Name)
